@@ -30,6 +30,19 @@ class Violation(Exception):
         self.detail = detail
 
 
+def pickle_roundtrip(obj, tag):
+    """pickle.loads(pickle.dumps(obj)); an exception of the round trip is the library's (a searcher, queue or
+    database that cannot be pickled or restored), not the harness's."""
+    import pickle
+
+    try:
+        return pickle.loads(pickle.dumps(obj))
+    except (Hang, MemoryError, RecursionError):
+        raise
+    except Exception as e:  # pylint: disable=broad-except
+        raise Violation(f"{tag}:pickle-round-trip-failed", f"{type(e).__name__}: {str(e)[:300]}") from e
+
+
 class HarnessError(Exception):
     pass
 
